@@ -31,7 +31,7 @@ func init() {
 		ID:    "R-IFACEWORD",
 		Doc:   "the inlined() predicates of json and proto return true for pointers, maps, single-field structs of an inlined type and (json, which supports arrays of any element) one-element arrays of an inlined type: exactly the types whose interface data word holds the value itself",
 		Props: []string{"C06", "C03", "C01"},
-		Min:   map[string]int{"C06": 1, "C03": 1, "C01": 1},
+		Min:   map[string]int{"C06": 3, "C03": 1, "C01": 3},
 		Run:   runIfaceWord,
 	})
 	Register(&Rule{
@@ -450,6 +450,32 @@ func popcount(x uint32) int {
 
 func runIfaceWord(c *core.Ctx) []core.Obligation {
 	b := newOb(c, "R-IFACEWORD")
+	// map keys and values come out of reflect as interface data words: both need the inline adapter
+	if fn := c.Lookup("json.constructMapCodec"); fn != nil {
+		adapted := map[string]bool{}
+		for _, ci := range callsIn(fn) {
+			callee := staticCallee(ci.Common())
+			if callee == nil || callee.Name() != "inlined" || len(ci.Common().Args) != 1 {
+				continue
+			}
+			for _, o := range origins(ci.Common().Args[0]) {
+				if call, ok := o.(*ssa.Call); ok && call.Common().IsInvoke() {
+					adapted[call.Common().Method.Name()] = true // Key / Elem
+				}
+			}
+			// the adapter must actually be installed on that branch
+		}
+		for _, part := range []struct{ m, what string }{{"Key", "key"}, {"Elem", "value"}} {
+			key := "ifaceword:map-" + part.what + "-adapter"
+			if adapted[part.m] {
+				b.addP([]string{"C06", "C01"}, core.Discharged, key, c.FuncPos(fn), "constructMapCodec tests inlined() on the map's "+part.what+" type and adapts its encoder")
+			} else {
+				b.addP([]string{"C06", "C01"}, core.Violation, key, c.FuncPos(fn), "constructMapCodec never tests inlined() on the map's "+part.what+" type: reflect hands pointer-shaped "+part.what+"s out in the data word itself, and the "+part.what+" encoder then dereferences the "+part.what+" as if it were a pointer to it (SIGSEGV for map[*K]V with a TextMarshaler key)")
+			}
+		}
+	} else {
+		b.addP([]string{"C06", "C01"}, core.Undecided, "ifaceword:map-adapters", "-", "json.constructMapCodec not found")
+	}
 	for _, spec := range []struct {
 		fn    string
 		props []string
